@@ -199,7 +199,9 @@ def oracle(ctx):
                     opt = vb.need_spec(k) == M.OPTIONAL
                     sa = steps_after[k]
                     if opt and sa["state"] != M.PENDING:
-                        sig = stale_root.get(k) or "revert:optional-step-not-reverted"
+                        sig = stale_root.get(k) or p_c10._upstream_root(
+                            vb, {("_implied_need", x): sg for x, sg in stale_root.items()}, k) \
+                            or "revert:optional-step-not-reverted"
                         fail(sig, "revert-optional",
                              f"step {s['label']!r} is optional and not needed (need_spec = OPTIONAL, cached "
                              f"_implied_need = {s['ineed']}) but is left in state {sa['state']} by revert_optional_steps",
